@@ -100,6 +100,7 @@ class Shim(object):
         self.out_fd = cfg.get('trace_fd')
         self.pid_name = cfg.get('pname', 'p')
         self.extra_exdev = cfg.get('exdev_pairs', [])
+        self.nofault_ops = set(cfg.get('nofault_ops', []))      # calls that report errors by their result, never by raising
 
     # ---- path helpers ------------------------------------------------------
     def _abs(self, path, dir_fd=None):
@@ -235,7 +236,7 @@ class Shim(object):
                 ev['res'] = 'CRASH'
                 self._emit(ev)
                 self._die(137)
-            f = self._fault_for(op, rels)
+            f = self._fault_for(op, rels) if op not in self.nofault_ops else None
             if f is not None:
                 ev['res'] = f
                 ev['injected'] = True
